@@ -167,7 +167,7 @@ def o10_1(tier):
     res = ObResult()
     seed = int(os.environ.get("VERIF_SEED", "0") or 0)
     _selftest(res, seed, 2)
-    K, D = (4, 3) if tier == "quick" else (5, 4)
+    K, D = (4, 3) if tier == "quick" else (5, 3)
     res.bounds = f"{K} node slots (root + {K - 1}), {D} dependency edges, 2 resource requirements, 2 available resources, 2 target paths, 1 target dir; all column values symbolic"
     res.encoded += [enc(sch.SELECT_NEXT_STEP, "scheduler.SELECT_NEXT_STEP"), enc(stp.STEP_DISPATCH_WHERE, "step.STEP_DISPATCH_WHERE"), enc(sch.RESOURCE_UNAVAILABLE, "scheduler.RESOURCE_UNAVAILABLE")]
     _, StepState, Need = enums()
@@ -560,7 +560,7 @@ def o10_2_ready(tier):
     import stepup.core.step as stp
 
     res = ObResult()
-    K, D = (4, 3) if tier == "quick" else (5, 4)
+    K, D = (4, 3) if tier == "quick" else (4, 4)
     res.bounds = f"{K} node slots, {D} dependency edges (initial or dynamic); pre: every step without _check_ready has _ready equal to its definition"
     res.encoded += [enc(sch.RECOMPUTE_READY, "scheduler.RECOMPUTE_READY"), enc(stp.UNAVAILABLE_INPUT_WHERE, "step.UNAVAILABLE_INPUT_WHERE"), enc(sch.Scheduler._update_meta_ready)]
 
@@ -626,7 +626,7 @@ def o10_2_after(tier):
     import stepup.core.scheduler as sch
 
     res = ObResult()
-    K, D = (4, 3) if tier == "quick" else (5, 4)
+    K, D = (4, 3) if tier == "quick" else (4, 4)
     res.bounds = f"{K} node slots, {D} dependency edges, 2 target paths, 1 target directory; pre: every attached step without _check_after satisfies the one-hop equation on the cached values"
     res.encoded += [enc(sch.UPDATE_CHECK_AFTER, "scheduler.UPDATE_CHECK_AFTER"), enc(sch.PROPAGATE_CHECK_AFTER, "scheduler.PROPAGATE_CHECK_AFTER"), enc(sch.SEED_CHECK_AFTER, "scheduler.SEED_CHECK_AFTER"), enc(sch.Scheduler._update_meta_after)]
 
@@ -910,9 +910,9 @@ def mk_o10_3(name):
         if name == "Step.reattach(step)":
             K, D = (4, 3) if tier == "quick" else (5, 3)  # 540 paths at K=5: thorough only
         elif name in DEEP:
-            K, D = (5, 3) if tier == "quick" else (6, 4)
+            K, D = (5, 3)  # measured; K=6 does not complete within the time limit
         else:
-            K, D = (4, 3) if tier == "quick" else (5, 4)
+            K, D = (4, 3) if tier == "quick" else (4, 4)
         res.bounds = f"mutation {name}: {K} node slots, {D} dependency edges; from any state satisfying the schema, I1-I9 and INV_flags; node ids, new states and endpoints symbolic"
         res.encoded += [enc(stp.STEP_SCHEMA, "step.STEP_SCHEMA (triggers)"), enc(stp.RECURSIVE_CHECK_WITH_PRODUCTS, "step.RECURSIVE_CHECK_WITH_PRODUCTS"), enc(stp.RECURSIVE_CHECK_AFTER_SOURCES, "step.RECURSIVE_CHECK_AFTER_SOURCES")]
         fn_m = mutations()[name]
